@@ -226,6 +226,16 @@ func (w *verifLW) outboxEntry(class string, k int) any {
 	case "legit_ref":
 		w.publish(w.activity(act, "A", "Create", w.owner, w.object(k)))
 		return act
+	case "legit_author_no_actor":
+		/* the owner's own activity about a note on the owner's host that names a non-actor of another host as its author */
+		imp := w.note(w.M.URL(fmt.Sprintf("/s%d/impersonation%d", w.sid, k)), "M", nil, nil)
+		imp["name"] = "STAMP_M Carol"
+		w.publish(imp)
+		obj := w.note(w.A.URL(fmt.Sprintf("/s%d/objx%d", w.sid, k)), "A", imp["id"], nil)
+		w.publish(obj)
+		a := w.activity(act, "A", "Create", w.owner, obj)
+		w.publish(a)
+		return a
 	case "legit_actor_emb":
 		a := w.activity(act, "A", "Create", w.actor(w.owner, "A"), w.object(k))
 		w.publish(a)
@@ -340,6 +350,19 @@ func (w *verifLW) replyEntry(class string, k int, parent string) any {
 		return w.A.URL(out)
 	case "anon_parent":
 		return w.note("", "A", nil, map[string]any{"type": "Note", "name": "STAMP_A", "content": "<p>nobody's</p>"})
+	case "legit_author_no_actor":
+		/* a reply that is what it says, but names as its author something on another host that is no actor at all (a note
+		   with a person's name): whatever is shown as the author, it is not that */
+		imp := w.note(w.M.URL(fmt.Sprintf("/s%d/impersonation%d", w.sid, k)), "M", nil, nil)
+		imp["name"] = "STAMP_M Carol"
+		w.publish(imp)
+		var author any = imp["id"]
+		if k%2 == 1 {
+			author = imp
+		}
+		n := w.note(r, "A", author, parent)
+		w.publish(n)
+		return n
 	case "forged_author":
 		m := w.actor(w.M.URL(fmt.Sprintf("/s%d/m", w.sid)), "M")
 		w.publish(m)
@@ -403,7 +426,21 @@ func (w *verifLW) inspect(out *verifkit.Trace, item Tangible, desc string) {
 				w.inspect(out, a, desc+"/author")
 				out.Emit(verifkit.M{"ev": "author", "shown": true, "post_host": w.hostName(x.id), "author_host": w.hostName(a.id), "desc": desc,
 					"post_served": verifStampOf(x.title), "author_served": verifStampOf(a.name)})
+				continue
 			}
+			if _, failed := c.(*Failure); failed {
+				continue
+			}
+			/* whatever else stands in the byline is shown as the author: where it lives is where its identifier says */
+			var id *url.URL
+			switch y := c.(type) {
+			case *Post:
+				id = y.id
+			case *Activity:
+				id = y.id
+			}
+			out.Emit(verifkit.M{"ev": "author", "shown": true, "post_host": w.hostName(x.id), "author_host": w.hostName(id), "desc": desc + " (the author is a " + fmt.Sprintf("%T", c) + ")",
+				"post_served": verifStampOf(x.title), "author_served": verifStampOf(verifSGR.ReplaceAllString(c.Name(), ""))})
 		}
 	}
 }
@@ -435,11 +472,11 @@ func verifRunListing(out *verifkit.Trace, w *verifLW, in verifListingIn) {
 			entries[k] = w.outboxEntry(c, k)
 		}
 		outboxID := w.A.URL(fmt.Sprintf("/s%d/outbox", w.sid))
-		outbox := map[string]any{"id": outboxID, "type": "OrderedCollection", "totalItems": len(entries)}
+		outbox := map[string]any{"id": outboxID, "type": "OrderedCollection", "totalItems": w.count(len(entries))}
 		var inlineOutbox map[string]any
 		if in.Place == "inline_anon" {
 			/* the listing is part of the owner's document and has no id of its own */
-			inlineOutbox = map[string]any{"type": "OrderedCollection", "totalItems": len(entries)}
+			inlineOutbox = map[string]any{"type": "OrderedCollection", "totalItems": w.count(len(entries))}
 			if w.rng.Intn(2) == 0 {
 				inlineOutbox["orderedItems"] = entries
 			} else {
@@ -448,7 +485,7 @@ func verifRunListing(out *verifkit.Trace, w *verifLW, in verifListingIn) {
 		} else if in.Place == "foreign_anon" || in.Place == "redirect_anon" {
 			/* the listing is served by B and has no id; what it embeds is B's word */
 			foreign := fmt.Sprintf("/s%d/outbox", w.sid)
-			anon := map[string]any{"type": "OrderedCollection", "totalItems": len(entries)}
+			anon := map[string]any{"type": "OrderedCollection", "totalItems": w.count(len(entries))}
 			items := verifDeepRestamp(entries, "B")
 			if w.rng.Intn(2) == 0 {
 				anon["orderedItems"] = items
@@ -497,12 +534,12 @@ func verifRunListing(out *verifkit.Trace, w *verifLW, in verifListingIn) {
 		}
 		w.publish(w.actor(w.owner, "A"))
 		n := w.note(parent, "A", w.owner, nil)
-		replies := map[string]any{"id": parent + "/replies", "type": "Collection", "items": entries}
+		replies := map[string]any{"id": parent + "/replies", "type": "Collection", "items": entries, "totalItems": w.count(len(entries))}
 		if in.Place == "inline_anon" {
-			n["replies"] = map[string]any{"type": "Collection", "items": entries}
+			n["replies"] = map[string]any{"type": "Collection", "items": entries, "totalItems": w.count(len(entries))}
 		} else if in.Place == "foreign_anon" || in.Place == "redirect_anon" {
 			foreign := fmt.Sprintf("/s%d/replies", w.sid)
-			w.serve(w.B, foreign, map[string]any{"type": "Collection", "items": verifDeepRestamp(entries, "B")})
+			w.serve(w.B, foreign, map[string]any{"type": "Collection", "items": verifDeepRestamp(entries, "B"), "totalItems": w.count(len(entries))})
 			n["replies"] = w.B.URL(foreign)
 			if in.Place == "redirect_anon" {
 				n["replies"] = w.A.URL(foreign)
@@ -607,4 +644,17 @@ func TestVerifListing(t *testing.T) {
 		}
 		verifRunListing(out, w, s)
 	}
+}
+
+/* the count a collection states about itself is advisory: accurate, left at 0, stale, or not a number at all */
+func (w *verifLW) count(n int) any {
+	switch w.rng.Intn(5) {
+	case 0:
+		return 0
+	case 1:
+		return 99
+	case 2:
+		return "many"
+	}
+	return n
 }
